@@ -319,7 +319,10 @@ fn spoil_value(key: &str, how: u8) -> Option<&'static str> {
         "playlist" => pick(&["abc", "-1", "4294967296", ""]),
         "playlistlength" | "song" | "songid" | "nextsong" | "nextsongid" | "bitrate" | "updating_db" | "artists" | "albums" | "songs"
         | "db_update" | "Id" => pick(&["abc", "-1", "", "1x", "99999999999999999999999"]),
-        "elapsed" | "duration" | "xfade" | "uptime" | "playtime" | "db_playtime" => pick(&["abc", "-1", "", "1:2", "1e999"]),
+        "elapsed" | "duration" | "xfade" | "uptime" | "playtime" | "db_playtime" => {
+            // 2^64 s and beyond cannot be represented by a Duration
+            pick(&["abc", "-1", "", "1:2", "1e999", "18446744073709551616", "18446744073709551616.000", "1e20", "-0.001"])
+        }
         "replay_gain_mode" => pick(&["on", "", "Track", "2"]),
         "tagtype" => pick(&["", "a b", "x.y", "T2"]),
         "sticker" => pick(&["novalue", "", "no equals sign"]),
